@@ -331,6 +331,19 @@ package cli
 //@       len(c.commands[n0].args) == 0 && len(c.commands[n0].commands) == 0
 
 // --- the application entry points (C14 version flag, C08 spec errors surface before any flow step) ----------------------------
+// Version (C18, C16, C14): the version flag is an ordinary bool option declared through Cmd.Bool at the call, so it is
+// subject to the duplicate-name check and is counted when the default spec is built
+//@ func (*Cli).Version
+//@   requires recv: cli != nil && cli.Cmd != nil && cli.Cmd.optionsIdx != nil && cli.Cmd.argsIdx != nil
+//@   requires named: len(strings_Fields(name)) > 0
+//@   maypanic
+//@   let names = strings_Fields(name)
+//@   ensures no-collision: forall j int :: 0 <= j && j < len(names) ==> !old(optStr(names[j]) in cli.Cmd.optionsIdx)
+//@   ensures declared-now: len(cli.Cmd.options) == old(len(cli.Cmd.options)) + 1 && cli.Cmd.options[old(len(cli.Cmd.options))].Name == name &&
+//@       cli.Cmd.options[old(len(cli.Cmd.options))].HideValue
+//@   ensures version-option: cli.version != nil && cli.version.version == version &&
+//@       (len(names) > 0 ==> cli.version.option == cli.Cmd.options[old(len(cli.Cmd.options))])
+
 //@ func (*Cli).parse
 //@   requires recv: cli != nil && cli.Cmd != nil && cli.Cmd.fsm != nil && entry != nil
 //@   requires version-wf: cli.version != nil ==> cli.version.option != nil
@@ -469,6 +482,10 @@ package cli
 //@       c.args[old(len(c.args))].ValueSetByUser == asType(p, "BoolArg").SetByUser && c.args[old(len(c.args))].EnvVar == asType(p, "BoolArg").EnvVar &&
 //@       c.args[old(len(c.args))].Name == asType(p, "BoolArg").Name && c.args[old(len(c.args))].HideValue == asType(p, "BoolArg").HideValue &&
 //@       isType(c.args[old(len(c.args))].Value, "*values.BoolValue") && asType(c.args[old(len(c.args))].Value, "*values.BoolValue") == result
+//@   ensures option-table: isType(p, "BoolOpt") ==> (forall j int :: 0 <= j && j < len(strings_Fields(asType(p, "BoolOpt").Name)) ==>
+//@       !old(optStr(strings_Fields(asType(p, "BoolOpt").Name)[j]) in c.optionsIdx) && c.optionsIdx[optStr(strings_Fields(asType(p, "BoolOpt").Name)[j])] == c.options[old(len(c.options))])
+//@   ensures argument-table: isType(p, "BoolArg") ==> !old(asType(p, "BoolArg").Name in c.argsIdx) &&
+//@       c.argsIdx[asType(p, "BoolArg").Name] == c.args[old(len(c.args))]
 //@   ensures known-kind: isType(p, "BoolOpt") || isType(p, "BoolArg")
 //@ func (*Cmd).BoolPtr
 //@   requires recv: c != nil && c.optionsIdx != nil && c.argsIdx != nil && p != nil && into != nil
@@ -481,6 +498,10 @@ package cli
 //@       c.args[old(len(c.args))].ValueSetByUser == asType(p, "BoolArg").SetByUser && c.args[old(len(c.args))].EnvVar == asType(p, "BoolArg").EnvVar &&
 //@       c.args[old(len(c.args))].Name == asType(p, "BoolArg").Name && c.args[old(len(c.args))].HideValue == asType(p, "BoolArg").HideValue &&
 //@       isType(c.args[old(len(c.args))].Value, "*values.BoolValue") && asType(c.args[old(len(c.args))].Value, "*values.BoolValue") == into
+//@   ensures option-table: isType(p, "BoolOpt") ==> (forall j int :: 0 <= j && j < len(strings_Fields(asType(p, "BoolOpt").Name)) ==>
+//@       !old(optStr(strings_Fields(asType(p, "BoolOpt").Name)[j]) in c.optionsIdx) && c.optionsIdx[optStr(strings_Fields(asType(p, "BoolOpt").Name)[j])] == c.options[old(len(c.options))])
+//@   ensures argument-table: isType(p, "BoolArg") ==> !old(asType(p, "BoolArg").Name in c.argsIdx) &&
+//@       c.argsIdx[asType(p, "BoolArg").Name] == c.args[old(len(c.args))]
 //@   ensures known-kind: isType(p, "BoolOpt") || isType(p, "BoolArg")
 //@ func (*Cmd).String
 //@   requires recv: c != nil && c.optionsIdx != nil && c.argsIdx != nil && p != nil
@@ -493,6 +514,10 @@ package cli
 //@       c.args[old(len(c.args))].ValueSetByUser == asType(p, "StringArg").SetByUser && c.args[old(len(c.args))].EnvVar == asType(p, "StringArg").EnvVar &&
 //@       c.args[old(len(c.args))].Name == asType(p, "StringArg").Name && c.args[old(len(c.args))].HideValue == asType(p, "StringArg").HideValue &&
 //@       isType(c.args[old(len(c.args))].Value, "*values.StringValue") && asType(c.args[old(len(c.args))].Value, "*values.StringValue") == result
+//@   ensures option-table: isType(p, "StringOpt") ==> (forall j int :: 0 <= j && j < len(strings_Fields(asType(p, "StringOpt").Name)) ==>
+//@       !old(optStr(strings_Fields(asType(p, "StringOpt").Name)[j]) in c.optionsIdx) && c.optionsIdx[optStr(strings_Fields(asType(p, "StringOpt").Name)[j])] == c.options[old(len(c.options))])
+//@   ensures argument-table: isType(p, "StringArg") ==> !old(asType(p, "StringArg").Name in c.argsIdx) &&
+//@       c.argsIdx[asType(p, "StringArg").Name] == c.args[old(len(c.args))]
 //@   ensures known-kind: isType(p, "StringOpt") || isType(p, "StringArg")
 //@ func (*Cmd).StringPtr
 //@   requires recv: c != nil && c.optionsIdx != nil && c.argsIdx != nil && p != nil && into != nil
@@ -505,6 +530,10 @@ package cli
 //@       c.args[old(len(c.args))].ValueSetByUser == asType(p, "StringArg").SetByUser && c.args[old(len(c.args))].EnvVar == asType(p, "StringArg").EnvVar &&
 //@       c.args[old(len(c.args))].Name == asType(p, "StringArg").Name && c.args[old(len(c.args))].HideValue == asType(p, "StringArg").HideValue &&
 //@       isType(c.args[old(len(c.args))].Value, "*values.StringValue") && asType(c.args[old(len(c.args))].Value, "*values.StringValue") == into
+//@   ensures option-table: isType(p, "StringOpt") ==> (forall j int :: 0 <= j && j < len(strings_Fields(asType(p, "StringOpt").Name)) ==>
+//@       !old(optStr(strings_Fields(asType(p, "StringOpt").Name)[j]) in c.optionsIdx) && c.optionsIdx[optStr(strings_Fields(asType(p, "StringOpt").Name)[j])] == c.options[old(len(c.options))])
+//@   ensures argument-table: isType(p, "StringArg") ==> !old(asType(p, "StringArg").Name in c.argsIdx) &&
+//@       c.argsIdx[asType(p, "StringArg").Name] == c.args[old(len(c.args))]
 //@   ensures known-kind: isType(p, "StringOpt") || isType(p, "StringArg")
 //@ func (*Cmd).Int
 //@   requires recv: c != nil && c.optionsIdx != nil && c.argsIdx != nil && p != nil
@@ -517,6 +546,10 @@ package cli
 //@       c.args[old(len(c.args))].ValueSetByUser == asType(p, "IntArg").SetByUser && c.args[old(len(c.args))].EnvVar == asType(p, "IntArg").EnvVar &&
 //@       c.args[old(len(c.args))].Name == asType(p, "IntArg").Name && c.args[old(len(c.args))].HideValue == asType(p, "IntArg").HideValue &&
 //@       isType(c.args[old(len(c.args))].Value, "*values.IntValue") && asType(c.args[old(len(c.args))].Value, "*values.IntValue") == result
+//@   ensures option-table: isType(p, "IntOpt") ==> (forall j int :: 0 <= j && j < len(strings_Fields(asType(p, "IntOpt").Name)) ==>
+//@       !old(optStr(strings_Fields(asType(p, "IntOpt").Name)[j]) in c.optionsIdx) && c.optionsIdx[optStr(strings_Fields(asType(p, "IntOpt").Name)[j])] == c.options[old(len(c.options))])
+//@   ensures argument-table: isType(p, "IntArg") ==> !old(asType(p, "IntArg").Name in c.argsIdx) &&
+//@       c.argsIdx[asType(p, "IntArg").Name] == c.args[old(len(c.args))]
 //@   ensures known-kind: isType(p, "IntOpt") || isType(p, "IntArg")
 //@ func (*Cmd).IntPtr
 //@   requires recv: c != nil && c.optionsIdx != nil && c.argsIdx != nil && p != nil && into != nil
@@ -529,6 +562,10 @@ package cli
 //@       c.args[old(len(c.args))].ValueSetByUser == asType(p, "IntArg").SetByUser && c.args[old(len(c.args))].EnvVar == asType(p, "IntArg").EnvVar &&
 //@       c.args[old(len(c.args))].Name == asType(p, "IntArg").Name && c.args[old(len(c.args))].HideValue == asType(p, "IntArg").HideValue &&
 //@       isType(c.args[old(len(c.args))].Value, "*values.IntValue") && asType(c.args[old(len(c.args))].Value, "*values.IntValue") == into
+//@   ensures option-table: isType(p, "IntOpt") ==> (forall j int :: 0 <= j && j < len(strings_Fields(asType(p, "IntOpt").Name)) ==>
+//@       !old(optStr(strings_Fields(asType(p, "IntOpt").Name)[j]) in c.optionsIdx) && c.optionsIdx[optStr(strings_Fields(asType(p, "IntOpt").Name)[j])] == c.options[old(len(c.options))])
+//@   ensures argument-table: isType(p, "IntArg") ==> !old(asType(p, "IntArg").Name in c.argsIdx) &&
+//@       c.argsIdx[asType(p, "IntArg").Name] == c.args[old(len(c.args))]
 //@   ensures known-kind: isType(p, "IntOpt") || isType(p, "IntArg")
 //@ func (*Cmd).Float64
 //@   requires recv: c != nil && c.optionsIdx != nil && c.argsIdx != nil && p != nil
@@ -541,6 +578,10 @@ package cli
 //@       c.args[old(len(c.args))].ValueSetByUser == asType(p, "Float64Arg").SetByUser && c.args[old(len(c.args))].EnvVar == asType(p, "Float64Arg").EnvVar &&
 //@       c.args[old(len(c.args))].Name == asType(p, "Float64Arg").Name && c.args[old(len(c.args))].HideValue == asType(p, "Float64Arg").HideValue &&
 //@       isType(c.args[old(len(c.args))].Value, "*values.Float64Value") && asType(c.args[old(len(c.args))].Value, "*values.Float64Value") == result
+//@   ensures option-table: isType(p, "Float64Opt") ==> (forall j int :: 0 <= j && j < len(strings_Fields(asType(p, "Float64Opt").Name)) ==>
+//@       !old(optStr(strings_Fields(asType(p, "Float64Opt").Name)[j]) in c.optionsIdx) && c.optionsIdx[optStr(strings_Fields(asType(p, "Float64Opt").Name)[j])] == c.options[old(len(c.options))])
+//@   ensures argument-table: isType(p, "Float64Arg") ==> !old(asType(p, "Float64Arg").Name in c.argsIdx) &&
+//@       c.argsIdx[asType(p, "Float64Arg").Name] == c.args[old(len(c.args))]
 //@   ensures known-kind: isType(p, "Float64Opt") || isType(p, "Float64Arg")
 //@ func (*Cmd).Float64Ptr
 //@   requires recv: c != nil && c.optionsIdx != nil && c.argsIdx != nil && p != nil && into != nil
@@ -553,6 +594,10 @@ package cli
 //@       c.args[old(len(c.args))].ValueSetByUser == asType(p, "Float64Arg").SetByUser && c.args[old(len(c.args))].EnvVar == asType(p, "Float64Arg").EnvVar &&
 //@       c.args[old(len(c.args))].Name == asType(p, "Float64Arg").Name && c.args[old(len(c.args))].HideValue == asType(p, "Float64Arg").HideValue &&
 //@       isType(c.args[old(len(c.args))].Value, "*values.Float64Value") && asType(c.args[old(len(c.args))].Value, "*values.Float64Value") == into
+//@   ensures option-table: isType(p, "Float64Opt") ==> (forall j int :: 0 <= j && j < len(strings_Fields(asType(p, "Float64Opt").Name)) ==>
+//@       !old(optStr(strings_Fields(asType(p, "Float64Opt").Name)[j]) in c.optionsIdx) && c.optionsIdx[optStr(strings_Fields(asType(p, "Float64Opt").Name)[j])] == c.options[old(len(c.options))])
+//@   ensures argument-table: isType(p, "Float64Arg") ==> !old(asType(p, "Float64Arg").Name in c.argsIdx) &&
+//@       c.argsIdx[asType(p, "Float64Arg").Name] == c.args[old(len(c.args))]
 //@   ensures known-kind: isType(p, "Float64Opt") || isType(p, "Float64Arg")
 //@ func (*Cmd).Strings
 //@   requires recv: c != nil && c.optionsIdx != nil && c.argsIdx != nil && p != nil
@@ -565,6 +610,10 @@ package cli
 //@       c.args[old(len(c.args))].ValueSetByUser == asType(p, "StringsArg").SetByUser && c.args[old(len(c.args))].EnvVar == asType(p, "StringsArg").EnvVar &&
 //@       c.args[old(len(c.args))].Name == asType(p, "StringsArg").Name && c.args[old(len(c.args))].HideValue == asType(p, "StringsArg").HideValue &&
 //@       isType(c.args[old(len(c.args))].Value, "*values.StringsValue") && asType(c.args[old(len(c.args))].Value, "*values.StringsValue") == result
+//@   ensures option-table: isType(p, "StringsOpt") ==> (forall j int :: 0 <= j && j < len(strings_Fields(asType(p, "StringsOpt").Name)) ==>
+//@       !old(optStr(strings_Fields(asType(p, "StringsOpt").Name)[j]) in c.optionsIdx) && c.optionsIdx[optStr(strings_Fields(asType(p, "StringsOpt").Name)[j])] == c.options[old(len(c.options))])
+//@   ensures argument-table: isType(p, "StringsArg") ==> !old(asType(p, "StringsArg").Name in c.argsIdx) &&
+//@       c.argsIdx[asType(p, "StringsArg").Name] == c.args[old(len(c.args))]
 //@   ensures known-kind: isType(p, "StringsOpt") || isType(p, "StringsArg")
 //@ func (*Cmd).StringsPtr
 //@   requires recv: c != nil && c.optionsIdx != nil && c.argsIdx != nil && p != nil && into != nil
@@ -577,6 +626,10 @@ package cli
 //@       c.args[old(len(c.args))].ValueSetByUser == asType(p, "StringsArg").SetByUser && c.args[old(len(c.args))].EnvVar == asType(p, "StringsArg").EnvVar &&
 //@       c.args[old(len(c.args))].Name == asType(p, "StringsArg").Name && c.args[old(len(c.args))].HideValue == asType(p, "StringsArg").HideValue &&
 //@       isType(c.args[old(len(c.args))].Value, "*values.StringsValue") && asType(c.args[old(len(c.args))].Value, "*values.StringsValue") == into
+//@   ensures option-table: isType(p, "StringsOpt") ==> (forall j int :: 0 <= j && j < len(strings_Fields(asType(p, "StringsOpt").Name)) ==>
+//@       !old(optStr(strings_Fields(asType(p, "StringsOpt").Name)[j]) in c.optionsIdx) && c.optionsIdx[optStr(strings_Fields(asType(p, "StringsOpt").Name)[j])] == c.options[old(len(c.options))])
+//@   ensures argument-table: isType(p, "StringsArg") ==> !old(asType(p, "StringsArg").Name in c.argsIdx) &&
+//@       c.argsIdx[asType(p, "StringsArg").Name] == c.args[old(len(c.args))]
 //@   ensures known-kind: isType(p, "StringsOpt") || isType(p, "StringsArg")
 //@ func (*Cmd).Ints
 //@   requires recv: c != nil && c.optionsIdx != nil && c.argsIdx != nil && p != nil
@@ -589,6 +642,10 @@ package cli
 //@       c.args[old(len(c.args))].ValueSetByUser == asType(p, "IntsArg").SetByUser && c.args[old(len(c.args))].EnvVar == asType(p, "IntsArg").EnvVar &&
 //@       c.args[old(len(c.args))].Name == asType(p, "IntsArg").Name && c.args[old(len(c.args))].HideValue == asType(p, "IntsArg").HideValue &&
 //@       isType(c.args[old(len(c.args))].Value, "*values.IntsValue") && asType(c.args[old(len(c.args))].Value, "*values.IntsValue") == result
+//@   ensures option-table: isType(p, "IntsOpt") ==> (forall j int :: 0 <= j && j < len(strings_Fields(asType(p, "IntsOpt").Name)) ==>
+//@       !old(optStr(strings_Fields(asType(p, "IntsOpt").Name)[j]) in c.optionsIdx) && c.optionsIdx[optStr(strings_Fields(asType(p, "IntsOpt").Name)[j])] == c.options[old(len(c.options))])
+//@   ensures argument-table: isType(p, "IntsArg") ==> !old(asType(p, "IntsArg").Name in c.argsIdx) &&
+//@       c.argsIdx[asType(p, "IntsArg").Name] == c.args[old(len(c.args))]
 //@   ensures known-kind: isType(p, "IntsOpt") || isType(p, "IntsArg")
 //@ func (*Cmd).IntsPtr
 //@   requires recv: c != nil && c.optionsIdx != nil && c.argsIdx != nil && p != nil && into != nil
@@ -601,6 +658,10 @@ package cli
 //@       c.args[old(len(c.args))].ValueSetByUser == asType(p, "IntsArg").SetByUser && c.args[old(len(c.args))].EnvVar == asType(p, "IntsArg").EnvVar &&
 //@       c.args[old(len(c.args))].Name == asType(p, "IntsArg").Name && c.args[old(len(c.args))].HideValue == asType(p, "IntsArg").HideValue &&
 //@       isType(c.args[old(len(c.args))].Value, "*values.IntsValue") && asType(c.args[old(len(c.args))].Value, "*values.IntsValue") == into
+//@   ensures option-table: isType(p, "IntsOpt") ==> (forall j int :: 0 <= j && j < len(strings_Fields(asType(p, "IntsOpt").Name)) ==>
+//@       !old(optStr(strings_Fields(asType(p, "IntsOpt").Name)[j]) in c.optionsIdx) && c.optionsIdx[optStr(strings_Fields(asType(p, "IntsOpt").Name)[j])] == c.options[old(len(c.options))])
+//@   ensures argument-table: isType(p, "IntsArg") ==> !old(asType(p, "IntsArg").Name in c.argsIdx) &&
+//@       c.argsIdx[asType(p, "IntsArg").Name] == c.args[old(len(c.args))]
 //@   ensures known-kind: isType(p, "IntsOpt") || isType(p, "IntsArg")
 //@ func (*Cmd).Floats64
 //@   requires recv: c != nil && c.optionsIdx != nil && c.argsIdx != nil && p != nil
@@ -613,6 +674,10 @@ package cli
 //@       c.args[old(len(c.args))].ValueSetByUser == asType(p, "Floats64Arg").SetByUser && c.args[old(len(c.args))].EnvVar == asType(p, "Floats64Arg").EnvVar &&
 //@       c.args[old(len(c.args))].Name == asType(p, "Floats64Arg").Name && c.args[old(len(c.args))].HideValue == asType(p, "Floats64Arg").HideValue &&
 //@       isType(c.args[old(len(c.args))].Value, "*values.Floats64Value") && asType(c.args[old(len(c.args))].Value, "*values.Floats64Value") == result
+//@   ensures option-table: isType(p, "Floats64Opt") ==> (forall j int :: 0 <= j && j < len(strings_Fields(asType(p, "Floats64Opt").Name)) ==>
+//@       !old(optStr(strings_Fields(asType(p, "Floats64Opt").Name)[j]) in c.optionsIdx) && c.optionsIdx[optStr(strings_Fields(asType(p, "Floats64Opt").Name)[j])] == c.options[old(len(c.options))])
+//@   ensures argument-table: isType(p, "Floats64Arg") ==> !old(asType(p, "Floats64Arg").Name in c.argsIdx) &&
+//@       c.argsIdx[asType(p, "Floats64Arg").Name] == c.args[old(len(c.args))]
 //@   ensures known-kind: isType(p, "Floats64Opt") || isType(p, "Floats64Arg")
 //@ func (*Cmd).Floats64Ptr
 //@   requires recv: c != nil && c.optionsIdx != nil && c.argsIdx != nil && p != nil && into != nil
@@ -625,4 +690,8 @@ package cli
 //@       c.args[old(len(c.args))].ValueSetByUser == asType(p, "Floats64Arg").SetByUser && c.args[old(len(c.args))].EnvVar == asType(p, "Floats64Arg").EnvVar &&
 //@       c.args[old(len(c.args))].Name == asType(p, "Floats64Arg").Name && c.args[old(len(c.args))].HideValue == asType(p, "Floats64Arg").HideValue &&
 //@       isType(c.args[old(len(c.args))].Value, "*values.Floats64Value") && asType(c.args[old(len(c.args))].Value, "*values.Floats64Value") == into
+//@   ensures option-table: isType(p, "Floats64Opt") ==> (forall j int :: 0 <= j && j < len(strings_Fields(asType(p, "Floats64Opt").Name)) ==>
+//@       !old(optStr(strings_Fields(asType(p, "Floats64Opt").Name)[j]) in c.optionsIdx) && c.optionsIdx[optStr(strings_Fields(asType(p, "Floats64Opt").Name)[j])] == c.options[old(len(c.options))])
+//@   ensures argument-table: isType(p, "Floats64Arg") ==> !old(asType(p, "Floats64Arg").Name in c.argsIdx) &&
+//@       c.argsIdx[asType(p, "Floats64Arg").Name] == c.args[old(len(c.args))]
 //@   ensures known-kind: isType(p, "Floats64Opt") || isType(p, "Floats64Arg")
